@@ -61,6 +61,12 @@ fn workloads(prop: &str, thorough: bool) -> Vec<Work> {
         if thorough {
             w.push(Work::Exhaustive { n: 3, phase, stride: 1 });
             w.push(Work::Exhaustive { n: 4, phase, stride: 1 });
+            // a sample of the 248 832 five-job graphs (offset = seed mod stride), all schedules each
+            let stride5 = match phase {
+                exhaustive::Phase::Edits => 256,
+                _ => 2048,
+            };
+            w.push(Work::Exhaustive { n: 5, phase, stride: stride5 });
         } else {
             w.push(Work::Exhaustive { n: 3, phase, stride: 1 });
             w.push(Work::Exhaustive { n: 4, phase, stride: 16 });
@@ -80,6 +86,8 @@ fn workloads(prop: &str, thorough: bool) -> Vec<Work> {
             exh(&mut w, exhaustive::Phase::Edits);
         }
         "C02" => {
+            // large graphs (subprocesses): the lean driver checks progress / materialised inputs / quiescence after abort there too
+            w.push(Work::Sweep { thorough: false });
             w.push(chains(Plain, EphChain, 4, 16000 * k));
             w.push(chains(Stamped, EphChain, 4, 8000 * k));
             w.push(chains(Prod, EphChain, 4, 8000 * k));
@@ -125,6 +133,8 @@ fn workloads(prop: &str, thorough: bool) -> Vec<Work> {
             exh(&mut w, exhaustive::Phase::Edits);
         }
         "C05" => {
+            // large graphs (subprocesses): the lean driver checks progress / materialised inputs / quiescence after abort there too
+            w.push(Work::Sweep { thorough: false });
             w.push(chains(Plain, Random, 8, 14000 * k));
             w.push(chains(Stamped, Random, 12, 6000 * k));
             w.push(chains(Prod, Random, 8, 8000 * k));
@@ -196,6 +206,8 @@ fn workloads(prop: &str, thorough: bool) -> Vec<Work> {
             exh(&mut w, exhaustive::Phase::Faults);
         }
         "C10" => {
+            // large graphs (subprocesses): the lean driver checks progress / materialised inputs / quiescence after abort there too
+            w.push(Work::Sweep { thorough: false });
             w.push(chains(Plain, AbortOffered, 7, 16000 * k));
             w.push(chains(Stamped, AbortOffered, 7, 6000 * k));
             w.push(chains(Prod, AbortOffered, 7, 6000 * k));
@@ -318,6 +330,15 @@ fn workloads(prop: &str, thorough: bool) -> Vec<Work> {
             exh(&mut w, exhaustive::Phase::Misuse);
         }
         _ => panic!("unknown property {}", prop),
+    }
+    if prop != "C19" && prop != "C15" && prop != "C16" && prop != "C20" {
+        // larger projects (up to 28 jobs + motif): wide fan-in / fan-out, long dependency paths, many jobs running at once
+        let conv = match prop {
+            "C01" | "C04" | "C11" | "C18" => Prod,
+            "C03" | "C09" | "C12" => Stamped,
+            _ => Plain,
+        };
+        w.push(chains(conv, Random, 28, 1200 * k));
     }
     if thorough && prop != "C19" && prop != "C15" && prop != "C16" && prop != "C20" {
         // deeper scope of the thorough tier: chains of 8-20 evaluations over graphs of up to 20 (+motif) jobs
@@ -507,6 +528,23 @@ fn main() {
             }
             if acc.viols.is_empty() {
                 println!("no monitor fired");
+            }
+        }
+        "exh-bulk" => {
+            // development aid: ppgmon exh-bulk <n> <phase> <stride> <offset>
+            let n: usize = args[2].parse().unwrap();
+            let phase = exhaustive::Phase::parse(&args[3]);
+            let stride: u64 = args[4].parse().unwrap();
+            let offset: u64 = args[5].parse().unwrap();
+            let total = exhaustive::graph_count(n);
+            let count = (total + stride - 1 - offset) / stride;
+            let timed_out = Arc::new(AtomicBool::new(false));
+            let acc = run_parallel(16, count, Instant::now() + Duration::from_secs(7200), &timed_out, move |i, acc| {
+                exhaustive::run_graph(n, offset + i * stride, phase, acc, false);
+            });
+            println!("graphs {} evaluations {} maxima {:?}", count, acc.evaluations, acc.maxima);
+            for ((p, sig), e) in &acc.viols {
+                println!("VIOLATED {} x{} sig={} :: {} :: {:?}", p, e.count, sig, e.first.detail.chars().take(300).collect::<String>(), e.first.replay_args);
             }
         }
         "bulk" => {
